@@ -39,6 +39,12 @@ M=[
  ("L1 format.split on bufio.Scanner with the default 64 KiB token limit (seeded/C20/split-scanner-long-word-limit)", F, "/verif/seeded/C20/split-scanner-long-word-limit/patch.diff"),
  ("L2 stringx.splitBy flushes a piece when it reaches 4096 bytes", S, [("\t\tbuffer.WriteRune(r)\n\t}\n\tif buffer.Len() != 0 {","\t\tbuffer.WriteRune(r)\n\t\tif buffer.Len() >= 4096 {\n\t\t\tlist = append(list, buffer.String())\n\t\t\tbuffer.Reset()\n\t\t}\n\t}\n\tif buffer.Len() != 0 {")]),
  ("L3 stringx.ToSnake marks the receiver in a fixed 64 KiB scratch array", S, [("func (s String) ToSnake() string {","func (s String) ToSnake() string {\n\tif len(s.source) > 0 {\n\t\tvar scratch [1 << 16]byte\n\t\tscratch[len(s.source)-1] = 1\n\t}")]),
+ ("A1 doFormat assembles the result with fmt.Sprintf(before+\"%s\"+after, joined)", F, [("return format.before + joined + format.after, nil",'return fmt.Sprintf(format.before+"%s"+format.after, joined), nil')]),
+ ("A2 words joined through regexp ReplaceAllString (expands $ in through)", F, [("joined := strings.Join(join, format.through)",'joined := regexp.MustCompile("\\x00").ReplaceAllString(strings.Join(join, "\\x00"), format.through)'),('import (\n\t"bytes"','import (\n\t"regexp"\n\t"bytes"')]),
+ ("A2b words joined through regexp ReplaceAllString on a private marker (only $ in through matters)", F, [("joined := strings.Join(join, format.through)",'joined := regexp.MustCompile("\\x1f\\x1e").ReplaceAllString(strings.Join(join, "\\x1f\\x1e"), format.through)'),('import (\n\t"bytes"','import (\n\t"regexp"\n\t"bytes"')]),
+ ("H1 every 50000th call of split returns the previous call's words (long-lived process state)", F, [("func split(content string) ([]string, error) {","var verifCalls int\nvar verifLast []string\n\nfunc split(content string) (res []string, err error) {\n\tverifCalls++\n\tif verifCalls%50000 == 0 {\n\t\treturn verifLast, nil\n\t}\n\tdefer func() { verifLast = res }()")]),
+ ("T1 asciiUpper copies the template into a fixed 4096-byte array", F, [("\tb := []byte(s)\n\tfor i, c := range b {","\tvar arr [4096]byte\n\tb := arr[:copy(arr[:], s)]\n\tfor i, c := range b {")]),
+ ("G1 NewConfig returns one shared package-level Config", C, [("\tcfg := &Config{NamingFormat: format}","\tcfg := &verifShared\n\tcfg.NamingFormat = format"),("func validate(","var verifShared Config\n\nfunc validate(")]),
  ("S1 ToSnake joins with empty string", S, [('return strings.Join(target, "_")','return strings.Join(target, "")')]),
  ("S2 ToCamel keeps underscores (remove=false)", S, [("\t\treturn r == '_'\n\t}, true)","\t\treturn r == '_'\n\t}, false)")]),
  ("S3 splitBy drops last piece", S, [("\tif buffer.Len() != 0 {\n\t\tlist = append(list, buffer.String())\n\t}\n\n\treturn list","\treturn list")]),
